@@ -125,3 +125,30 @@ void h_outer_traits(void){
   if (t[3] != NA) ASSERT(rt[1] <= t[3], "run-time size <= bounded_size");
   OBS(r); OBS(rt[1]); OBS(t[3]); OBS(t[1]); REACHED();
 }
+
+/* dimension-changing views of a bounded-dim operand (dim 1..3 symbolic, i.e. up to its bound). DCK: 0 expand_dims(a, scalar axis in [-(dim+1), dim]); 1 atleast_nd(a, 1); 2 atleast_2d(a); 3 atleast_nd(a, 4) */
+#ifndef DCK
+#define DCK 0
+#endif
+void h_dimchange_traits(void){
+  u64 shape[3] = {1, 1, 1}, dim = in_u64(1, 3), t[9] = {NA, NA, NA, NA, NA, NA, NA, NA, NA}, rt[6] = {0}, ex[4] = {0}, nd; u32 data[16];
+  for (int i = 0; i < 3; i++){ shape[i] = in_u64(1, MAXE); if ((u64)i >= dim) shape[i] = 1; } ASSUME(shape[0] * shape[1] * shape[2] <= 16);
+  in_data(data, 16); i32 ax = in_i32(-4, 3);
+#if DCK == 0
+  ASSUME(ax >= -(i32)(dim + 1) && ax <= (i32)dim); nd = dim + 1; { u64 an = ax < 0 ? (u64)(ax + (i32)nd) : (u64)ax; for (u64 i = 0, j = 0; i < 4; i++) if (i < nd) ex[i] = (i == an) ? 1 : shape[j++]; }
+  int r = k_trt_expand_b3(shape, dim, data, (u32)ax, t, rt);
+#else
+  u64 want = DCK == 1 ? 1 : DCK == 2 ? 2 : 4; nd = dim > want ? dim : want; for (u64 i = 0; i < 4; i++) if (i < nd) ex[i] = i + dim >= nd ? shape[i + dim - nd] : 1;
+  int r = DCK == 1 ? k_trt_atleast1_b3(shape, dim, data, 0, t, rt) : DCK == 2 ? k_trt_atleast2_b3(shape, dim, data, 0, t, rt) : k_trt_atleast4_b3(shape, dim, data, 0, t, rt);
+#endif
+  ASSERT(r == 1, "the view exists");
+  u64 rdim = rt[0], rsize = rt[1], prod = 1;
+  ASSERT(rdim == nd, "run-time dim == NumPy dim");
+  for (u64 i = 0; i < 4; i++) if (i < nd){ ASSERT(rt[2 + i] == ex[i], "run-time shape == NumPy shape (nothing clipped)"); prod *= rt[2 + i]; }
+  ASSERT(rsize == prod, "run-time size == product of the run-time shape");
+  if (t[0] != NA) ASSERT(t[0] == rdim, "fixed_dim == run-time dim");
+  if (t[1] != NA) ASSERT(t[1] == rsize, "fixed_size == run-time size");
+  if (t[2] != NA) ASSERT(rdim <= t[2], "run-time dim <= bounded_dim");
+  if (t[3] != NA) ASSERT(rsize <= t[3], "run-time size <= bounded_size");
+  OBS(r); OBS(rdim); OBS(rsize); OBS(t[2]); OBS(t[3]); REACHED();
+}
